@@ -621,6 +621,13 @@ class Flows:
         if self.l2 is not None and "cross" not in w:
             w = dict(w, cross=4)
         kinds = [k for k, v in w.items() for _ in range(v)]
+        if self.s.listens[self.li]["tcp"] and self.next_conn == 0 and not self.s.events:
+            # the client connection that Route-carrying requests use is opened FIRST: connection numbers are handed out in
+            # order of establishment, dials of the proxy included, and which request makes the proxy dial is its own
+            # business - a connection opened later could not be named reliably
+            self.s.ev_accept(self.li, self.s.ip(22), 43000)
+            self.rt_conn = 0
+            self.next_conn = 1
         for _ in range(n_events):
             k = r.choice(kinds)
             if k == "svc":
@@ -791,6 +798,45 @@ def dialog_history(rng, block, n_dialogs=None, n_backends=None, opts=None, flows
             dialogs.remove(d)
             if not dialogs:
                 break
+    return f
+
+
+def spiral_history(rng, block):
+    """"proxysp" cases: requests whose Route set names the proxy more than once (literal address, host-table alias, the other
+    listen entry): the first entry is consumed, the next one makes the proxy send the request to one of its OWN sockets,
+    where it arrives as a datagram from the proxy's own address and is processed again - until an entry names somebody
+    else.  Ordinary requests in between (the proxy's own address has been learned by then)."""
+    r = rng
+    o = {"backends": r.choice([0, 1, 2]), "tcp": False, "two_listeners": r.random() < 0.5, "routes": r.choice([0, 1, 2]),
+         "tcphops": False, "keep": r.random() < 0.3}
+    f = Flows(r, block, o)
+    s = f.s
+    s.spiral = True
+    l = s.listens[f.li]
+    me = [b"<sip:" + l["addr"] + b":%d;lr>" % l["udp"], b"<sip:proxy.local:%d;lr>" % l["udp"], b"<sip:alias.local;lr>",
+          b"\"P\" <sip:u@" + l["addr"] + b";lr;x=1>"]
+    if f.l2 is not None:
+        l2 = s.listens[f.l2]
+        me2 = [b"<sip:" + l2["addr"] + b":%d;lr>" % l2["udp"], b"<sip:" + l2["addr"] + b";lr>"]
+    else:
+        me2 = me
+    for _ in range(r.randrange(2, 7)):
+        k = r.random()
+        if k < 0.6:
+            h = r.choice(f.hops)
+            nxt = r.choice([b"<sip:" + h[0] + b":5080;lr>", b"<sip:hop1.local:5080;lr;foo>", b"<sip:" + h[0] + b":5080;lr>;p=1"])
+            owns = [r.choice(me)] + [r.choice(me + me2) for _ in range(r.choice([1, 1, 2]))]
+            routes = owns + r.choice([[nxt], [nxt, b"<sip:far0.example.net;lr>"], []])
+            a, b = f.uri_pair()
+            ua = r.choice(f.uas)
+            data, _ = f.request(r.choice(METHODS), f.service_uri(r.random() < 0.5), ua, f.ft(a, b"sp%d" % f.nid(), True),
+                                f.ft(b"sip:u@nowhere.example.net", None, True), b"sp-%d" % f.nid(), routes=routes,
+                                rr=[b"<sip:up.example.net;lr>"] if r.random() < 0.4 else [])
+            s.ev_udp(f.li, ua, data)
+        elif k < 0.8:
+            f.route_request()
+        else:
+            f.to_service()
     return f
 
 
